@@ -1,7 +1,7 @@
 (* C15 non-vacuity: concrete inputs meeting the hypotheses of the theorems in
    Props.v, and concrete instances of the abstract codings / primitives that
    satisfy the section hypotheses (so the hypotheses are consistent). *)
-From CJ Require Import Common.Base Common.BaseProofs C15.Model C15.Proofs C15.ModelName C15.ProofsName C15.ModelObf C15.ProofsObf C15.ModelAny C15.ProofsAny C15.ModelDns C15.ProofsDns C15.ModelB32 C15.ModelExch C15.ProofsExch C15.ModelPb C15.ProofsPb C15.Run.
+From CJ Require Import Common.Base Common.BaseProofs C15.Model C15.Proofs C15.ModelName C15.ProofsName C15.ModelObf C15.ProofsObf C15.ModelAny C15.ProofsAny C15.ModelDns C15.ProofsDns C15.ModelB32 C15.ModelExch C15.ProofsExch C15.ModelPb C15.ProofsPb C15.ModelDot C15.ProofsDot C15.Run.
 From Coq Require Import Lia ZifyN ZifyNat ZifyBool.
 Ltac Zify.zify_post_hook ::= Z.div_mod_to_equations.
 
@@ -218,4 +218,19 @@ Example ex_cross_type :
   \/ exists m, station_unpack (client_pack_nourl (MPrefix ex_prefix)) 2 = Ok (Some (MDtls m)).
 Proof. right. eexists. vm_compute. reflexivity. Qed.
 Example ex_varint_overflow : varint_dec (repeat 255 9 ++ [2]) = None /\ varint_dec (repeat 255 9 ++ [1]) = Some (18446744073709551615, []).
+Proof. split; vm_compute; reflexivity. Qed.
+
+(* ---- DoT framing ---- *)
+Example ex_dot : exists s, dot_send [[]; [1; 2]; lcg_bytes 4 300] = (s, false) /\ dot_recv s = ([[]; [1; 2]; lcg_bytes 4 300], true) /\ blen s = 308.
+Proof. eexists. split; [vm_compute; reflexivity|]. split; vm_compute; reflexivity. Qed.
+Example ex_dot_limit : (exists f, dot_frame (lcg_bytes 1 65535) = Some f) /\ dot_frame (lcg_bytes 1 65536) = None.
+Proof.
+  split; [eexists; apply dot_frame_ok|apply dot_frame_rejects].
+  - assert (E : blen (lcg_bytes 1 65535) = 65535) by (vm_compute; reflexivity). rewrite E. apply N.le_refl.
+  - assert (E : blen (lcg_bytes 1 65536) = 65536) by (vm_compute; reflexivity). rewrite E. reflexivity.
+Qed.
+Example ex_dot_cut : dot_recv [0; 2; 7; 8; 0; 3; 9] = ([[7; 8]], false).
+Proof. vm_compute. reflexivity. Qed.
+(* ---- TrimSuffix beyond ASCII: the ASCII model says "no match" where Go's UTF-8 aware folding may match ---- *)
+Example ex_trim_non_ascii : trim_suffix [[120]; [255]] [[254]] = None /\ trim_suffix_gen (fun _ => []) [[120]; [255]] [[254]] = Some [[120]].
 Proof. split; vm_compute; reflexivity. Qed.
